@@ -1936,6 +1936,130 @@ pub fn case_c02(w: &mut World, t: &mut Tape) -> E2eOut {
     E2eOut { out, inconclusive: None }
 }
 
+// ---------------------------------------------------------------- C13 case (what the real servo programs into the real clock)
+
+/// One case: as in the C02 part the harness is the grandmaster, but its clock may drift faster than the servo is
+/// allowed to follow (+-500..900 ppm against a maximum frequency offset of 400 ppm), or jump. The daemon's clock is
+/// an overlay over the system clock, so (daemon clock - system clock), read off the Follow_Ups of the daemon's master
+/// port, has the programmed frequency as its slope and the applied steps as its jumps: every slope over >= 3 s
+/// without a jump must be within +-(400 + 15) ppm, every jump at least the step threshold (1 ms, -15 %) in magnitude.
+pub fn case_c13(w: &mut World, t: &mut Tape) -> E2eOut {
+    let mut out = CaseOut::new();
+    let mag = match t.weighted(&[1, 2, 2]) {
+        0 => 0i128,
+        1 => t.below(2_000_000) as i128,
+        _ => t.below(500_000_000) as i128,
+    };
+    w.gm_offset_ns = if t.bool() { -mag } else { mag };
+    w.gm_drift_ppm = match t.weighted(&[1, 3]) {
+        0 => t.range(-300_000, 300_000) as f64 / 1000.0,
+        _ => (if t.bool() { 1.0 } else { -1.0 }) * t.urange(500_000, 900_000) as f64 / 1000.0,
+    };
+    w.gm_epoch_ns = now_ns();
+    w.link_delay_ns = 0;
+    w.emulate_master = true;
+    let run_s: u64 = std::env::var("VERIF_C13_E2E_SECS").ok().and_then(|x| x.parse().ok()).unwrap_or(20);
+    w.frames_b.clear();
+    w.keep_frames = true;
+    let t0 = Instant::now();
+    // (system time of the Sync's arrival in ns, daemon clock - system clock in ns)
+    let mut samples: Vec<(f64, f64)> = vec![];
+    let mut syncs: std::collections::HashMap<u16, u128> = Default::default();
+    while t0.elapsed() < Duration::from_secs(run_s) {
+        let d = Instant::now() + Duration::from_millis(200);
+        w.run_until(d);
+        for (at, m) in std::mem::take(&mut w.frames_b) {
+            match &m.body {
+                RBody::Sync { .. } => {
+                    syncs.insert(m.header.seq, at);
+                }
+                RBody::FollowUp { precise_origin } => {
+                    if let Some(at) = syncs.remove(&m.header.seq) {
+                        let daemon_clock = precise_origin.total_ns() as i128 + ((m.header.correction as i128) >> 16);
+                        samples.push((at as f64, (daemon_clock - at as i128) as f64));
+                    }
+                }
+                _ => {}
+            }
+        }
+    }
+    w.keep_frames = false;
+    w.emulate_master = false;
+    let gm_off = w.gm_offset_ns;
+    let gm_drift = w.gm_drift_ppm;
+    w.gm_offset_ns = 0;
+    w.gm_drift_ppm = 0.0;
+    let rendered = json!({"gm_offset_ns": gm_off.to_string(), "gm_drift_ppm": gm_drift, "run_s": run_s, "samples": samples.len()});
+    out.render = rendered.clone();
+    if !w.alive() {
+        out.fail("daemon exited", rendered.to_string());
+        return E2eOut { out, inconclusive: None };
+    }
+    if samples.len() < 40 {
+        return E2eOut { out, inconclusive: Some(format!("only {} Sync/Follow_Up pairs of the daemon's master port seen", samples.len())) };
+    }
+    // split at jumps: a change of more than 300 us between consecutive samples beyond what 1000 ppm could explain
+    let mut segments: Vec<Vec<(f64, f64)>> = vec![vec![]];
+    let mut jumps: Vec<f64> = vec![];
+    for i in 0..samples.len() {
+        if i > 0 {
+            let dt = samples[i].0 - samples[i - 1].0;
+            let dv = samples[i].1 - samples[i - 1].1;
+            if dv.abs() > 300_000.0 + dt * 1e-3 {
+                jumps.push(dv);
+                segments.push(vec![]);
+            }
+        }
+        segments.last_mut().unwrap().push(samples[i]);
+    }
+    let max_ppm = 400.0;
+    let mut worst: f64 = 0.0;
+    let mut fitted = 0;
+    for seg in &segments {
+        // sliding windows of >= 1.5 s inside a jump-free segment: least-squares slope
+        let mut a = 0;
+        while a < seg.len() {
+            let mut b = a;
+            while b < seg.len() && seg[b].0 - seg[a].0 < 3.0e9 {
+                b += 1;
+            }
+            if b >= seg.len() {
+                break;
+            }
+            let win = &seg[a..=b];
+            let n = win.len() as f64;
+            let mx = win.iter().map(|p| p.0).sum::<f64>() / n;
+            let my = win.iter().map(|p| p.1).sum::<f64>() / n;
+            let sxx: f64 = win.iter().map(|p| (p.0 - mx) * (p.0 - mx)).sum();
+            let sxy: f64 = win.iter().map(|p| (p.0 - mx) * (p.1 - my)).sum();
+            let ppm = sxy / sxx * 1e6;
+            fitted += 1;
+            worst = worst.max(ppm.abs());
+            if !ppm.is_finite() || ppm.abs() > max_ppm + 15.0 {
+                out.fail("daemon: the clock runs faster or slower than the configured maximum frequency offset allows", format!("{:.1} ppm over a jump-free window of {:.2} s (maximum {} ppm) ; {}", ppm, (win[win.len() - 1].0 - win[0].0) / 1e9, max_ppm, rendered));
+                break;
+            }
+            a += 4;
+        }
+        if out.violation.is_some() {
+            break;
+        }
+    }
+    for j in &jumps {
+        // (the difference of two samples 125 ms apart understates a step by the drift in between, up to ~60 us)
+        if !j.is_finite() || j.abs() < 850_000.0 {
+            out.fail("daemon: the clock was stepped by less than the step threshold", format!("jump of {:.0} ns (threshold 1 ms) ; all jumps {:?} ; {}", j, jumps.iter().map(|x| *x as i64).collect::<Vec<_>>(), rendered));
+            break;
+        }
+    }
+    out.label(format!("daemon:steps:{}", jumps.len().min(9)));
+    out.label(format!("daemon:max-slope<={}ppm", [10.0, 100.0, 300.0, 390.0, 415.0, 1e9].iter().find(|x| worst <= **x).unwrap()));
+    if fitted > 0 {
+        out.nontrivial = Some(hash_of(&format!("{}{}", gm_off, gm_drift)));
+    }
+    E2eOut { out, inconclusive: None }
+}
+
 // ---------------------------------------------------------------- C14 case (peer delay through the real daemon)
 
 /// One case on a daemon with peer-to-peer ports: (A) 3-8 of its Pdelay_Req are answered by one responder, one- or
@@ -2146,6 +2270,7 @@ pub fn worker_main(args: &[String]) -> i32 {
             "C10" => case_c10(&mut w, &mut tape),
             "C02" => case_c02(&mut w, &mut tape),
             "C14" => case_c14(&mut w, &mut tape),
+            "C13" => case_c13(&mut w, &mut tape),
             _ => {
                 println!("{}", json!({"fatal": format!("no end-to-end case for {}", prop)}));
                 return 2;
